@@ -1105,7 +1105,8 @@ func (p *c17rProgress) String() string {
 type c17rE2ECase struct {
 	seed   int64
 	upload bool
-	pre    []int // kinds of the intruders that talk to the relay's port while the trigger is held back
+	pre    []int   // kinds of the intruders that talk to the relay's port while the trigger is held back
+	typed  [3]bool // keys typed in-band at the relay's client side: before the ACT / between ACT and CFG / after the CFG
 	line   *c17Line
 	viol   [][3]string
 	stats  map[string]int
@@ -1129,6 +1130,26 @@ func c17rRunE2E(ec *c17rE2ECase, work string) {
 	var genuine atomic.Int32
 	genuine.Store(-1)
 	var gotReply atomic.Value
+	// keys typed in-band at the relay (the client's terminal side), at chosen points of the relay's handshake
+	var relayIn io.Writer
+	var inMu sync.Mutex
+	var inbandToServer, relayToServerTunnel, clientFromTunnel bytes.Buffer
+	keys := [3][]byte{[]byte("<KA>ls -l\r"), []byte("<KB>ls -l\r"), []byte("<KC>ls -l\r")}
+	typeKeys := func(ph int, wait bool) {
+		if !ec.typed[ph] || relayIn == nil {
+			return
+		}
+		relayIn.Write(keys[ph])
+		sc.ev(fmt.Sprintf("i0:%s", hx(keys[ph])))
+		lc.count("e2e:typed:" + []string{"before-ACT", "between-ACT-and-CFG", "after-CFG"}[ph])
+		if wait { // until they have gone by in-band (they must), or give up
+			c17WaitUntil(400*time.Millisecond, func() bool {
+				inMu.Lock()
+				defer inMu.Unlock()
+				return bytes.Contains(inbandToServer.Bytes(), keys[ph])
+			})
+		}
+	}
 	tap := func(b []byte) {
 		seen = append(seen, b...)
 		m := c17rTriggerRe.FindSubmatch(seen)
@@ -1167,9 +1188,15 @@ func c17rRunE2E(ec *c17rE2ECase, work string) {
 					sc.ev(fmt.Sprintf("x%d", p.idx))
 				}
 			}
+			typeKeys(0, false) // parked by the relay; eaten as junk in front of the ACT line
 		})
 	}
 	hook := func(dir int, idx int, b []byte) e2eAction {
+		if dir == dirC2S {
+			inMu.Lock()
+			inbandToServer.Write(b)
+			inMu.Unlock()
+		}
 		if dir == dirS2C && sc.sport == 0 {
 			if m := c17rTriggerRe.FindSubmatch(b); m != nil {
 				sc.sport, _ = strconv.Atoi(string(m[2]))
@@ -1197,7 +1224,7 @@ func c17rRunE2E(ec *c17rE2ECase, work string) {
 		if port != sc.rport {
 			lc.violate("tunnel-relay-e2e:client-port", "the client's connector was called with a port other than the relay's", fmt.Sprintf("called with %d, relay announced %d", port, sc.rport))
 		}
-		return &c17rFirstRead{Conn: conn, got: &gotReply}
+		return &c17rFirstRead{Conn: conn, got: &gotReply, mu: &inMu, rlog: &clientFromTunnel}
 	}
 	relayConnector := func(port int) net.Conn { // the RELAY's connector: reaches the real trz / tsz
 		conn, err := net.DialTimeout("tcp", "127.0.0.1:"+strconv.Itoa(port), time.Second)
@@ -1210,13 +1237,18 @@ func c17rRunE2E(ec *c17rE2ECase, work string) {
 		_, sh3 := trzsz.VerifGetHelloConstant(sc.uid, port)
 		sc.ev(fmt.Sprintf("W%d:%s", g, hx([]byte(sh3)))) // what the real server answers is checked by group tunnel
 		lc.count("e2e:relay-dialled-server")
-		return conn
+		// the server's CFG is held back while keys are typed between ACT and CFG (the server has read the ACT by then: it
+		// ignores in-band input), keys after the CFG follow it
+		return &c17rHsConn{Conn: conn, mu: &inMu, wlog: &relayToServerTunnel,
+			onCfg:    func() { typeKeys(1, true) },
+			afterCfg: func() { time.Sleep(15 * time.Millisecond); typeKeys(2, false) }}
 	}
 	cfg := e2eCfg{upload: ec.upload, timeout: 10, deadline: c17E2EDeadline, startWait: 6 * time.Second, proto: -1, quiet: true,
-		relays: 1, hook: hook, connector: connector, relayConnector: relayConnector, relayTap: tap}
+		relays: 1, hook: hook, connector: connector, relayConnector: relayConnector, relayTap: tap,
+		onRelayIn: func(w io.Writer) { relayIn = w }}
 	res := runTransfer(cfg, []string{srcFile}, filepath.Join(root, "dest"))
 	time.Sleep(5 * time.Millisecond)
-	ec.desc = fmt.Sprintf("relay-e2e seed=%d upload=%v pre=%v :: %s", ec.seed, ec.upload, ec.pre, sc.describe())
+	ec.desc = fmt.Sprintf("relay-e2e seed=%d upload=%v pre=%v typed(before-ACT, between-ACT-and-CFG, after-CFG)=%v :: %s", ec.seed, ec.upload, ec.pre, ec.typed, sc.describe())
 	_, sh4 := trzsz.VerifGetHelloConstant(sc.uid, sc.rport)
 	g := int(genuine.Load())
 	if g >= 0 && g < len(sc.peers) {
@@ -1243,6 +1275,32 @@ func c17rRunE2E(ec *c17rE2ECase, work string) {
 		if len(got) > 0 && string(fr) != ch1 {
 			lc.violate("tunnel-relay-e2e:intruder-answered:"+c17rKindName(sc.kinds[p.idx]), "an intruder on the relay's port received bytes",
 				fmt.Sprintf("conn=%d sent=%q received=%q :: %s", p.idx, c17Short(p.sent), c17Short(got), ec.desc))
+		}
+	}
+	inMu.Lock()
+	r2s, c4t, ib := append([]byte(nil), relayToServerTunnel.Bytes()...), append([]byte(nil), clientFromTunnel.Bytes()...), append([]byte(nil), inbandToServer.Bytes()...)
+	inMu.Unlock()
+	for ph := 0; ph < 3; ph++ {
+		if !ec.typed[ph] {
+			continue
+		}
+		name := []string{"before-ACT", "between-ACT-and-CFG", "after-CFG"}[ph]
+		for _, t := range []struct {
+			what string
+			b    []byte
+		}{{"what the relay wrote to the server's tunnel connection", r2s}, {"what the client read from its tunnel connection", c4t}} {
+			if i := bytes.Index(t.b, keys[ph][:4]); i >= 0 {
+				lo := i - 30
+				if lo < 0 {
+					lo = 0
+				}
+				lc.violate("tunnel-relay-e2e:inband-bytes-in-tunnel:"+name, "keys typed in-band at the relay appeared on a tunnel connection",
+					fmt.Sprintf("%q typed %s; %s contains …%q… :: %s", keys[ph], name, t.what, c17Short(t.b[lo:]), ec.desc))
+			}
+		}
+		if ph >= 1 && !bytes.Contains(ib, keys[ph]) {
+			lc.violate("tunnel-relay-e2e:inband-bytes-not-passed-on:"+name, "keys typed in-band at the relay after the tunnel had been agreed were not passed on in-band to the server",
+				fmt.Sprintf("%q typed %s :: %s", keys[ph], name, ec.desc))
 		}
 	}
 	ok := !res.hung && res.clientDone && res.serverExited && (!ec.upload || res.uploadErr == nil)
@@ -1290,12 +1348,55 @@ type c17rFirstRead struct {
 	net.Conn
 	got  *atomic.Value
 	done atomic.Bool
+	mu   *sync.Mutex
+	rlog *bytes.Buffer // the first 64 KiB of what was read
 }
 
 func (w *c17rFirstRead) Read(b []byte) (int, error) {
 	n, err := w.Conn.Read(b)
 	if n > 0 && w.done.CompareAndSwap(false, true) {
 		w.got.Store(append([]byte(nil), b[:n]...))
+	}
+	if n > 0 && w.rlog != nil {
+		w.mu.Lock()
+		if w.rlog.Len() < 65536 {
+			w.rlog.Write(b[:n])
+		}
+		w.mu.Unlock()
+	}
+	return n, err
+}
+
+// c17rHsConn: the relay's end of its connection to the server: logs the head of what the relay writes, holds the
+// server's CFG back while the harness types, and tells when it has gone through
+type c17rHsConn struct {
+	net.Conn
+	mu       *sync.Mutex
+	wlog     *bytes.Buffer
+	rseen    []byte
+	cfgDone  bool
+	onCfg    func()
+	afterCfg func()
+}
+
+func (w *c17rHsConn) Write(b []byte) (int, error) {
+	w.mu.Lock()
+	if w.wlog.Len() < 65536 {
+		w.wlog.Write(b)
+	}
+	w.mu.Unlock()
+	return w.Conn.Write(b)
+}
+
+func (w *c17rHsConn) Read(b []byte) (int, error) {
+	n, err := w.Conn.Read(b)
+	if n > 0 && !w.cfgDone {
+		w.rseen = append(w.rseen, b[:n]...)
+		if bytes.Contains(w.rseen, []byte("#CFG:")) {
+			w.cfgDone = true
+			w.onCfg()
+			go w.afterCfg()
+		}
 	}
 	return n, err
 }
@@ -1398,7 +1499,15 @@ func genC17RelayChild(c *ctx) {
 					ec.pre = append(ec.pre, intr[c.rng.Intn(len(intr))])
 				}
 			}
-			note(fmt.Sprintf("e2e scenario #%d seed=%d upload=%v pre=%v", first+i, ec.seed, ec.upload, ec.pre))
+			switch {
+			case first+i == 0:
+				ec.typed = [3]bool{false, true, false} // the seed's own history: keys between ACT and CFG
+			case first+i < 3:
+				ec.typed = [3]bool{true, true, true}
+			default:
+				ec.typed = [3]bool{c.rng.Intn(2) == 0, c.rng.Intn(3) != 0, c.rng.Intn(2) == 0}
+			}
+			note(fmt.Sprintf("e2e scenario #%d seed=%d upload=%v pre=%v typed=%v", first+i, ec.seed, ec.upload, ec.pre, ec.typed))
 			done, finished := c17Guard(c17E2ELimit, func() *c17rE2ECase { e := *ec; c17rRunE2E(&e, work); return &e })
 			if !finished {
 				c.count("abandoned:relay-e2e")
